@@ -224,6 +224,12 @@ KeyCases(code) ==
     [layer : {"msg"}, code : {code}, state : States, data : {"absent"}, size : {"-"}, sig : {"none", "garbage"}, epoch : {"-"}]
     \cup [layer : {"msg"}, code : {code}, state : States, data : {"present"}, size : {"zero", "ok", "long"},
           sig : {"none", "garbage", "author", "stranger"}, epoch : {"current", "other"}]
+    \* a key of the right LENGTH that is no valid secret scalar of the curve (all zero bytes, the group order itself, all
+    \* one bits): whoever turns the bytes into a key object gets nothing back
+    \cup (IF code = FlipKey
+          THEN [layer : {"msg"}, code : {code}, state : States, data : {"present"}, size : {"zeroscalar", "order", "allones"},
+                sig : {"author", "stranger"}, epoch : {"current", "other"}]
+          ELSE {})
 KeyExpect(c) == {"accept", "ignore"}
 
 \* --- batches ---
